@@ -336,6 +336,12 @@ class Database:
         if self.h5db is None:
             raise ValueError("There is no open database to split.")
 
+        # validate the request while the database is still intact (nothing has been closed or moved yet)
+        keepTimeSteps = list(keepTimeSteps)
+        missing = [ts for ts in keepTimeSteps if getH5GroupName(*ts) not in self.h5db]
+        if not keepTimeSteps or missing or len(set(keepTimeSteps)) != len(keepTimeSteps):
+            raise ValueError(f"Cannot split: {missing or keepTimeSteps} is empty, repeated or has no snapshot here.")
+
         self.h5db.close()
 
         backupDBPath = os.path.abspath(label.join(os.path.splitext(self._fileName)))
